@@ -21,6 +21,8 @@ def corpus():
         "progress.stress 16 30000 3 0 rising",
         "pool.usable 8 150", "pool.usable 2 200", "pool.usable 16 60",
         "pool.usable 160 12", "pool.usable 300 8", "pool.usable 129 10",       # pools larger than any round number a wake-up budget might use
+        "pool.usable 4096 3", "pool.usable 2500 2",        # C04l: thousands of requests pending at once — no worker may take more than the one it executes
+        "run prop=C04 mode=constant rate=4096/200ms dist=none dur=700 conc=4096 body=1200 expectfull=1",
         "run prop=C04 mode=constant rate=200/100ms dur=400 conc=200 body=250 expectfull=1",
         "pool.stress 8 3000 6 2",
         "pool.handles 2 3",
